@@ -153,7 +153,6 @@ TxTypes   == {"NORMAL", "GOVERNANCE", "REDEPLOY", "FEEDELEGATION", "TRANSFER", "
 Rcpts     == {"system", "name", "enterprise", "vault", "user", "usernew", "self", "contract", "empty", "long", "short", "nameA",
               "unkname", "rawshort", "sysprefix"}
 Accts     == {"addr", "empty", "long", "short", "nameA", "unkname", "rawshort", "special"}
-EnvPk(rc) == {"empty", "vmops", "garbage", "ci"}
 EnvOp(rc) == CASE rc = "system" -> "v1stake" [] rc = "name" -> "v1createName" [] rc = "enterprise" -> "appendAdmin" [] OTHER -> "v1stake"
 EnvA == {Shape(ty, rc, "addr", am, "zero", "zero", "next", "ok", "ok", "ok", pk, EnvOp(rc), ValidArgs(EnvOp(rc))) :
             ty \in TxTypes, rc \in Rcpts, am \in {"zero", "one", "stake2", "over"}, pk \in {"empty", "vmops", "garbage", "ci"}}
